@@ -10,6 +10,9 @@
 //   schedule <ints>        raw detsched schedule
 //   subs: q<id> r<id> quit p<id> startLoop destroy
 // stdout: `T<k> <event>` lines, `# …` comments, then `done` | `blocked T0:<st> …`, then `--`.
+//   comments for the trace oracle (not compared with the model): `# T<k> call q|r <id>` / `# T<k> ret q|r <id>`,
+//   `# T<k> call quit|startLoop|destroy` / `# T<k> ret …` around every API call, `# T<k> leave <id>` at the end of
+//   a task body (its beginning is the event `T<k> exec <id>`).
 //
 // Which loop an op addresses: plain mode → the one loop; elt mode → T0 uses the pointer returned by
 // startLoop() (null before: the op is skipped), every other thread (the loop thread: init callback and
@@ -90,6 +93,20 @@ void say(const char* fmt, ...) {
   sayImpl(true, text);
 }
 void sayUaf() { sayImpl(false, "uaf"); }   // attached to the previous event: the follow cursor stays
+// for the Python oracle only (never compared with the model): which API call / task body a thread is in
+void note(const char* fmt, ...) __attribute__((format(printf, 1, 2)));
+void note(const char* fmt, ...) {
+  if (g_finished) return;
+  char text[256];
+  va_list ap;
+  va_start(ap, fmt);
+  vsnprintf(text, sizeof text, fmt, ap);
+  va_end(ap);
+  int k = ds::self();
+  if (k < 0) k = 0;
+  fprintf(stdout, "# T%d %s\n", k, text);
+  fflush(stdout);
+}
 
 void finish(const char* status) {
   fputs(status, stdout);
@@ -198,17 +215,23 @@ void doSub(const Sub& s) {
   switch (s.kind) {
     case Sub::Q: {
       muduo::net::EventLoop* l = targetLoop();
+      note("call q %d", s.id);
       if (l) l->queueInLoop(std::bind(&execTask, s.id));
+      note("ret q %d", s.id);
       break;
     }
     case Sub::R: {
       muduo::net::EventLoop* l = targetLoop();
+      note("call r %d", s.id);
       if (l) l->runInLoop(std::bind(&execTask, s.id));
+      note("ret r %d", s.id);
       break;
     }
     case Sub::QUIT: {
       muduo::net::EventLoop* l = targetLoop();
+      note("call quit");
       if (l) l->quit();
+      note("ret quit");
       break;
     }
     case Sub::POST: {
@@ -220,16 +243,21 @@ void doSub(const Sub& s) {
     }
     case Sub::START:
       if (g_elt && !g_elt_obj) {
+        note("call startLoop");
         g_elt_obj = new muduo::net::EventLoopThread(&initCallback, "w");
         g_loopPtr = g_elt_obj->startLoop();
         say("started");
+        note("ret startLoop");
       }
       break;
     case Sub::DESTROY:
       if (g_elt && g_elt_obj) {
         muduo::net::EventLoopThread* e = g_elt_obj;
         g_elt_obj = 0;
+        note("call destroy");
         delete e;          // EV_JOIN prints `joined`
+        g_loopPtr = 0;
+        note("ret destroy");
       }
       break;
   }
@@ -240,6 +268,7 @@ void doSubs(const Subs& v) {
 void execTask(int id) {
   say("exec %d", id);
   doSubs(g_task[id & 255]);
+  note("leave %d", id);
 }
 
 void onPipeReadable(muduo::Timestamp) {
